@@ -131,6 +131,35 @@ def run(index, tier="quick", seed=0) -> Result:
                     "is the centroid only for triangles, parallelograms, regular polygons and centrally symmetric solids")
         else:
             res.ok("MEAN-1", k_, nontrivial=False)
+    # ORI-1: after the breadth-first pass every face agrees with face 0; whether that common orientation is outward is a
+    # property of the whole surface (the sign of the signed volume).  A test on one face's plane (an element picked by a
+    # constant index) is right only for solids that are star-shaped about the reference point.
+    from ..interp import Interp as _Interp
+    sf = cls.methods.get("sort_faces")
+    if sf is None:
+        raise AnalysisError("anchor vanished: Polyhedron.sort_faces")
+    r_sf = _Interp(index).run_entry(sf, cls)
+    flips = [e for e in r_sf["events"] if e.type == "cmp" and e.form == "compare" and e.func is sf and e.op in ("Lt", "Gt", "LtE", "GtE")
+             and ((e.right.is_number_const() and e.right.const == 0) or (e.left.is_number_const() and e.left.const == 0))]
+    verdict = None
+    for e in flips:
+        side = e.left if e.right.is_number_const() else e.right
+        if any(isinstance(t_, tuple) and t_[0] in ("getter", "getter-of") and t_[1] == "volume" for t_ in side.tags):
+            verdict = verdict or "volume"
+        else:
+            node_ = e.node.left if e.right.is_number_const() else e.node.comparators[0]
+            anchored = isinstance(node_, ast.Subscript) and all(isinstance(x, ast.Constant) and isinstance(x.value, int) for x in
+                                                                 (node_.slice.elts if isinstance(node_.slice, ast.Tuple) else [node_.slice]))
+            if anchored and ({("self", "_equations"), ("self", "_faces")} & side.deps):
+                verdict = ("anchored", e)
+    if verdict == "volume":
+        res.ok("ORI-1", "Polyhedron.sort_faces:global-orientation")
+    elif isinstance(verdict, tuple):
+        e = verdict[1]
+        res.bad("ORI-1", "Polyhedron.sort_faces:single-face", e.where(), f"Polyhedron.sort_faces decides the common orientation of all faces from one face "
+                f"(`{e.src()[:70]}`): right only for solids that are star-shaped about the reference point; for a U-shaped solid every face can be turned inward")
+    else:
+        raise AnalysisError("ORI-1: the global orientation test of Polyhedron.sort_faces is not recognised")
     return res
 
 
